@@ -51,6 +51,8 @@ pub enum Error {
 
 /// Orchestrates between Router and Network.
 pub struct RemoteLink<P> {
+    /// CONNACK still to be written (by `start`, so that a failed write ends the link the normal way)
+    connack: Option<Packet>,
     connect: Connect,
     pub(crate) connection_id: ConnectionId,
     network: Network<P>,
@@ -64,7 +66,7 @@ impl<P: Protocol> RemoteLink<P> {
     pub async fn new(
         router_tx: Sender<(ConnectionId, Event)>,
         tenant_id: Option<String>,
-        mut network: Network<P>,
+        network: Network<P>,
         connect_packet: Packet,
         dynamic_filters: bool,
         assigned_client_id: Option<String>,
@@ -104,17 +106,19 @@ impl<P: Protocol> RemoteLink<P> {
 
         let id = link_rx.id();
         Span::current().record("connection_id", id);
+        let mut connack = None;
 
         if let Some(mut packet) = notification.into() {
             if let Packet::ConnAck(_ack, props) = &mut packet {
                 let mut new_props = props.clone().unwrap_or_default();
                 new_props.assigned_client_identifier = assigned_client_id;
                 *props = Some(new_props);
-                network.write(packet).await?;
+                connack = Some(packet);
             }
         }
 
         Ok(RemoteLink {
+            connack,
             connect,
             connection_id: id,
             network,
@@ -127,6 +131,9 @@ impl<P: Protocol> RemoteLink<P> {
 
     pub async fn start(&mut self) -> Result<(), Error> {
         self.network.set_keepalive(self.connect.keep_alive);
+        if let Some(connack) = self.connack.take() {
+            self.network.write(connack).await?;
+        }
 
         // Note:
         // Shouldn't result in bounded queue deadlocks because of blocking n/w send
